@@ -8,6 +8,16 @@ RULE = ("cases = (hc) pairs d1, d2 built text-only as d1 = U1*N0*U0^-1, d2 = U2*
         "monic polynomials) so that d2*d1 = 0 with known ranks and torsion: every block shape (a0,h0,a1,h1,h2) in 0..1 "
         "(0..2 for i64/BigInt; includes 0-dimensional, no incoming, no outgoing and zero maps), random shapes with middle "
         "dimension 0..7, with_trans on and off, plus arbitrary small matrix pairs (d2*d1 != 0, exact comparison only); "
+        "(hc, valid = 2, and cx; Z[i] and Z[w] plans only) NON-chain diagonal forms: d_out = 0 (c3 = 0..2) and "
+        "d_in = U*diag(a_1..a_k)*V, k = 2..4 (plus 0..1 zero columns and 0..2 zero rows), a_i = products of 1..2 pairwise "
+        "non-associate Gaussian / Eisenstein primes (conjugate pairs 1+2i / 2+i, 2+w / 1+2w included), optionally times a "
+        "common factor and a unit, redrawn until some pair has neither a_i | a_j nor a_j | a_i, so that diag_normalize "
+        "performs a genuine gcd step whose lcm entry falls outside the normalised sector and the final unit normalisation "
+        "uses units that are not their own inverses; U, V random unimodular (identity in every fourth case) and the fixed "
+        "witnesses diag(3+6i, 6+3i), diag(1+2i, 2+i), diag(2+2w, 2+4w), ..; the invariant factors are not planted: "
+        "cyc, pq, bnd, shape and rank = c2 - k are evaluated, the reported torsion must be a divisibility chain of non-units "
+        "whose product is associated to a_1*..*a_k, and rank, torsion, forward/backward matrices are compared exactly with the "
+        "model; one case in five goes through GenericChainComplex::generate(..).homology() (vec: vectorize(gen k) = e_k); "
         "(cx) GenericChainComplex::generate(0..L, +-1, ..).homology() on complexes of 1..4 spaces incl. malformed row "
         "counts; (mg) composition of coordinate maps: the same generated complexes g, but every summand carries a coordinate "
         "map chosen among free / Summand::new(.., Trans::new(U, U^-1)) / two such steps joined by Summand::merge (reduced to "
@@ -72,8 +82,9 @@ def clause_failures(case, impl):
         return []
     kv = dict(x.split("=") for x in cl.split())
     t = case.split()
-    if t[0] == "hc" and t[3] != "1":
+    if t[0] == "hc" and t[3] not in ("1", "2"):
         # not a complex (d2*d1 != 0 in general): only the clauses that do not depend on it
+        # (valid = 2: a complex with d2 = 0 and a non-chain diagonal form of d1: every clause is evaluated)
         kv = {k: v for k, v in kv.items() if k in ("pq", "shape")}
     if t[0] == "mg" and t[3] != "1":
         # arbitrary matrices and coordinate maps (no inverse pairs, no complex): only the agreement of the three routes
@@ -89,7 +100,7 @@ def nontrivial(case, impl):
     if t[0] == "hc":
         nt = int(t[6])
         c2 = int(t[7 + nt + 1])
-        return t[3] == "1" and c2 >= 1 and (int(t[4]) + int(t[5]) > 0)
+        return t[3] in ("1", "2") and c2 >= 1 and (int(t[4]) + int(t[5]) > 0)
     if t[0] == "mg":
         # a valid complex with >= 2 spaces (at least one summand carries a non-trivial coordinate map by construction)
         return t[3] == "1" and int(t[4]) >= 2
@@ -106,12 +117,14 @@ def scan(ctx):
     except OSError:
         return [], {}
     extra, stats = [], {"overflow_aborts": 0, "panics": 0, "clause_evaluations": 0, "exact_comparisons": 0, "checker_only": 0,
-                        "merge_cases": 0, "merge_cases_arbitrary": 0, "reduced_merge_cases": 0}
+                        "merge_cases": 0, "merge_cases_arbitrary": 0, "reduced_merge_cases": 0, "nonchain_cases": 0}
     for c, a, b in zip(cases, impl, model):
         if c.startswith("mg "):
             stats["merge_cases" if c.split()[3] == "1" else "merge_cases_arbitrary"] += 1
         elif c.startswith("rd "):
             stats["reduced_merge_cases"] += 1
+        elif c.startswith("hc ") and c.split()[3] == "2":
+            stats["nonchain_cases"] += 1
         if overflow_abort(c, a, b):
             stats["overflow_aborts"] += 1
         if a == "P":
@@ -139,7 +152,7 @@ def harmless(case, impl, model):
         return False
     t = case.split()
     kv = dict(x.split("=") for x in cl.split())
-    if t[0] == "hc" and t[3] != "1":
+    if t[0] == "hc" and t[3] not in ("1", "2"):
         # arbitrary matrices with d2*d1 != 0: outside the property's domain; only the clauses that do not depend on
         # being a complex are meaningful
         return kv.get("pq") == "1" and kv.get("shape") == "1"
